@@ -212,6 +212,11 @@ func zzEqStrs(a, b []string) bool {
 	return true
 }
 
+// zzPreVary: the Vary value set earlier in the chain. It contains "Origin" as a
+// substring without naming the Origin header, so that anything that inspects
+// pre-existing Vary values other than by field name shows.
+const zzPreVary = "X-Original-Host"
+
 var zzAllNames = []string{zzACAO, zzACAC, zzACAM, zzACAH, zzACAPN, zzACMA, zzACEH, zzVary, "X-Inner-Header", "X-Pre"}
 
 // zzSameResp compares two responses (status, handler invocations and every
